@@ -37,7 +37,7 @@ def scope(fb):
         if p in seen:
             continue
         f = fb.fn(p)
-        if f is None or not f.has_mir() or not p.replace('<', '').startswith(CRATE):
+        if f is None or not f.has_mir() or getattr(f.crate, 'name', None) != CRATE:   # by defining crate: `<f32 as rten_serialize::..::SafeElement>::from_le_bytes` counts
             continue
         seen.add(p)
         for (callee, c, how) in cg.callees(f):
@@ -184,6 +184,25 @@ def discharge(fb, f, what, line, kind):
                     base = f.origins(c.args[0])
                     if any(o[0] == 'param' and o[1] == 0 and 'bytes' in [str(z) for z in o[2]] for o in base):
                         return 'bytes[start..pos] / bytes[pos..] with both bounds the monotone cursor (class invariant pos <= bytes.len(), see C34.cursor)'
+    if kind == 'panic' and what == 'chunks_exact':
+        # chunks_exact(n) panics only for n == 0: n is size_of::<X>() of a primitive number
+        for c in f.calls():
+            if c.line == line and (c.callee or '').endswith('::chunks_exact') and _prim_size(f, c.args[1]):
+                return 'chunk size is size_of::<%s>() = %d, never 0' % _prim_size(f, c.args[1])
+    if kind == 'panic' and what == 'unwrap':
+        # chunk.try_into::<[u8; N]>().unwrap() inside the map closure over chunks_exact(size_of::<X>()) with size_of X == N
+        cr = closure_creation(fb, f)
+        if cr is not None:
+            pf = cr[0]
+            sizes = {_prim_size(pf, k.args[1]) for k in pf.calls() if (k.callee or '').endswith('::chunks_exact')}
+            srcs = [k for k in pf.calls() if re.search(r'Iterator::map$', k.callee or '')]
+            for c in f.calls():
+                if c.line == line and re.search(r'Result::<T, E>::unwrap$', c.callee or ''):
+                    r = f.resolve_copy(c.args[0])
+                    if r[0] == 'call' and re.search(r'TryInto<U>>::try_into$', r[1].callee or ''):
+                        m = re.search(r'\[u8; (\d+)(_usize)?\]\]$', r[1].info.get('ga', ''))
+                        if m and len(sizes) == 1 and None not in sizes and list(sizes)[0][1] == int(m.group(1)) and len(srcs) == 1:
+                            return 'a chunk of chunks_exact(%d) always converts to [u8; %d]' % (int(m.group(1)), int(m.group(1)))
     if kind == 'alloc':
         for c in f.calls():
             if c.line == line and call_is(c, C05.ALLOC):
@@ -198,6 +217,19 @@ def discharge(fb, f, what, line, kind):
                 if any(o[0] == 'call' and re.search(r'<impl (u8|u16|u32)>::from_(le|be|ne)_bytes$', o[1] or '') for o in og) and \
                         not any(o[0] == 'binop' for o in og) and all(o[0] in ('call', 'cast', 'agg', 'const') for o in og):
                     return 'allocation size is a 16/32-bit field of the file (bounded by its width)'
+    return None
+
+
+PRIM_SIZES = {'u8': 1, 'i8': 1, 'bool': 1, 'u16': 2, 'i16': 2, 'f16': 2, 'u32': 4, 'i32': 4, 'f32': 4, 'u64': 8, 'i64': 8, 'f64': 8}
+
+
+def _prim_size(f, op):
+    """(type, size) if the operand is exactly size_of::<primitive number>()"""
+    r = f.resolve_copy(op)
+    if r[0] == 'call' and (r[1].callee or '') == 'core::mem::size_of':
+        m = re.match(r'^\[(\w+)\]$', r[1].info.get('ga', ''))
+        if m and m.group(1) in PRIM_SIZES:
+            return (m.group(1), PRIM_SIZES[m.group(1)])
     return None
 
 
